@@ -99,7 +99,9 @@ func (fx *fixture) close() {
 
 var ns = uuid.MustParse("c18c18c1-8c18-4c18-8c18-c18c18c18c18")
 
-func slotKey(kind string, i int) uuid.UUID { return uuid.NewSHA1(ns, []byte(fmt.Sprintf("%s-%d", kind, i))) }
+func slotKey(kind string, i int) uuid.UUID {
+	return uuid.NewSHA1(ns, []byte(fmt.Sprintf("%s-%d", kind, i)))
+}
 
 type sut struct {
 	ctx context.Context
